@@ -958,6 +958,16 @@ class ConnectedShape(DefinedShape):
             return False
         if abs(float(self) - float(other)) > 1e-6:
             return False
+        othe_subshapes = list(other.subshapes)
+        if len(self.subshapes) != len(othe_subshapes):
+            return False
+        for subshape in self.subshapes:
+            for j, osbshape in enumerate(othe_subshapes):
+                if osbshape == subshape:
+                    othe_subshapes.pop(j)
+                    break
+            else:
+                return False
         return True
 
     def __invert__(self) -> DisjointShape:
